@@ -767,8 +767,11 @@ closes (`msgToks`: ReportData struct, [subscription id], AttributeReports array 
 report, EventReports array, structural array ends, trailer with the end of the array that is still
 open + MoreChunkedMessages, or [SuppressResponse], revision, struct end) form ONE top-level struct in
 which every container is closed by its own `end_container` and the struct by the last token — with or
-without subscription id, with or without SuppressResponse.  (The attribute reports of a message are
-complete reports at byte level, also after a rewind + send: `cursor_messages`.) -/
+without subscription id, with or without SuppressResponse.  This is container nesting DERIVED FROM THE
+FLAGS: `msgToks` is balanced by construction, the only non-definitional content is that every non-final
+(MoreChunks) message has an open array for its trailer to close (`more → a ∨ e`).  Byte-level
+completeness of the reports of a message: `cursor_messages` (attributes only); event reports, the inner
+encoding of a report and tag order: decoding oracle on the real chunks only. -/
 theorem messages_wellformed {c : Cfg} {r : Req} {cs : List ChunkOut} (hw : c.WF) (h : respond c r = .ok cs) :
     ∀ ch ∈ cs, ∃ a e, (a = true → r.attrs.isSome = true) ∧ (e = true → r.events.isSome = true) ∧
       Accounts c a e ch ∧ ∀ subId suppress, wellFormed (msgToks subId suppress a e ch) = true := by
@@ -831,12 +834,14 @@ def msgsOf (x : CSt) : List (List Cell) := x.sent.reverse ++ [x.wb.live]
 /-- **the cursor-level attribute section is the size-level one** (whole run, every partial-write
 function `pw`, every garbage `g` in the buffer): both fail with the same error, or both end and
 every message sent consists of header, array start and the bytes of the COMPLETE reports of the
-corresponding size-level chunk — no byte of a report that did not fit, no byte of an earlier message -/
-theorem cursor_attrs_refine {c : Cfg} (hw : c.WF) (pw : PW) (g : List Cell) (as : List AttrReq) :
+corresponding size-level chunk — no byte of a report that did not fit, no byte of an earlier message.
+`IdxOk`: every list has at most 65535 elements — the list index of `send_array_items` is a `u16` and
+`list_index + 1` is a checked addition in the model (`nextIdx`; `arrStep_overflow`: the bound is needed) -/
+theorem cursor_attrs_refine {c : Cfg} (hw : c.WF) (pw : PW) (g : List Cell) (as : List AttrReq) (hok : IdxOk as) :
     (∃ e, cattrs c pw false g as = .error e ∧ putAttrs c (yielded as) (St.init c) = .error e ∧ e = .noSpace) ∨
     (∃ x s, cattrs c pw false g as = .ok x ∧ putAttrs c (yielded as) (St.init c) = .ok s ∧
       x.sent = s.done.map (fun ch => body c ch.pieces) ∧ x.wb.live = body c s.cur.reverse) := by
-  have h := cattrs_sim hw pw g as
+  have h := cattrs_sim hw pw g as hok
   cases h1 : cattrs c pw false g as with
   | error e =>
     cases h2 : putAttrs c (yielded as) (St.init c) with
@@ -857,13 +862,17 @@ theorem cursor_attrs_refine {c : Cfg} (hw : c.WF) (pw : PW) (g : List Cell) (as 
 
 /-- **the loops of the attribute section end** (audit concern 4: termination with content): the
 `loop { process_read … }` of `report_attributes` (fuel 4) and the loop of `send_array_items` (fuel
-`2·n + 6`) never exhaust their fuel, whatever the sizes -/
-theorem cursor_never_loops {c : Cfg} (hw : c.WF) (pw : PW) (g : List Cell) (as : List AttrReq) :
-    cattrs c pw false g as ≠ .error .loops := by
-  intro h
-  rcases cursor_attrs_refine hw pw g as with ⟨e, h1, _, h3⟩ | ⟨x, s, h1, _⟩
-  · rw [h] at h1; injection h1 with h1; subst h1; cases h3
-  · rw [h] at h1; cases h1
+`2·n + 6`) never exhaust their fuel, whatever the sizes — for lists of at most 65535 elements (`IdxOk`:
+the `u16` list index; beyond that the model ends with `Err.overflow` like a build with overflow checks,
+while a release build wraps the index to 0 and streams the list again and again) -/
+theorem cursor_never_loops {c : Cfg} (hw : c.WF) (pw : PW) (g : List Cell) (as : List AttrReq) (hok : IdxOk as) :
+    cattrs c pw false g as ≠ .error .loops ∧ cattrs c pw false g as ≠ .error .overflow := by
+  have key : ∀ e, e ≠ Err.noSpace → cattrs c pw false g as ≠ .error e := by
+    intro e0 hne h
+    rcases cursor_attrs_refine hw pw g as hok with ⟨e, h1, _, h3⟩ | ⟨x, s, h1, _⟩
+    · rw [h] at h1; injection h1 with h1; subst h1; exact hne h3
+    · rw [h] at h1; cases h1
+  exact ⟨key _ (by intro h; cases h), key _ (by intro h; cases h)⟩
 
 /-- the loop that `cursor_never_loops` excludes existed: on the unrepaired loop (`itemLoopOld`: no test
 for an empty message) the value of `oversize_item_gets_status` exhausts every fuel
@@ -875,11 +884,11 @@ example (fuel : Nat) :
 /-- **what the attribute section hands to the event section**, at cursor level: the messages sent so
 far and the buffer are those of the size-level state `s1` of `respond` -/
 theorem cursor_attr_section {c : Cfg} (hw : c.WF) (pw : PW) (g : List Cell) {as : List AttrReq} {s1 : ESt}
-    (h : attrSection c (some as) = .ok s1) :
+    (hok : IdxOk as) (h : attrSection c (some as) = .ok s1) :
     ∃ x, cattrs c pw false g as = .ok x ∧ x.sent = s1.done.map (fun ch => body c ch.pieces) ∧
       x.wb.live = body c s1.attrs.reverse := by
   obtain ⟨s, hp, _, hd, ha, _⟩ := attrSection_some hw h
-  rcases cursor_attrs_refine hw pw g as with ⟨e, _, h2, _⟩ | ⟨x, s2, h1, h2, h3, h4⟩
+  rcases cursor_attrs_refine hw pw g as hok with ⟨e, _, h2, _⟩ | ⟨x, s2, h1, h2, h3, h4⟩
   · rw [putAttrs_eq] at h2
     have : putItems c (selected as) (St.init c) = .error e := h2
     rw [hp] at this; cases this
@@ -893,10 +902,10 @@ theorem cursor_attr_section {c : Cfg} (hw : c.WF) (pw : PW) (g : List Cell) {as 
 /-- **an attribute read, message by message**: the byte strings the cursor-level run sends are, one for
 one, header + array start + the bytes of the reports of the messages of `chunks` -/
 theorem cursor_messages {c : Cfg} (hw : c.WF) (pw : PW) (g : List Cell) {items : List Item} {cs : List ChunkOut}
-    (h : chunks c items = .ok cs) :
+    (hok : IdxOk (plain items)) (h : chunks c items = .ok cs) :
     ∃ x, cattrs c pw false g (plain items) = .ok x ∧ msgsOf x = cs.map fun ch => body c ch.pieces := by
   obtain ⟨s, hp, _, rfl⟩ := chunks_ok_shape hw h
-  rcases cursor_attrs_refine hw pw g (plain items) with ⟨e, _, h2, _⟩ | ⟨x, s2, h1, h2, h3, h4⟩
+  rcases cursor_attrs_refine hw pw g (plain items) hok with ⟨e, _, h2, _⟩ | ⟨x, s2, h1, h2, h3, h4⟩
   · rw [putAttrs_eq] at h2
     have h2b : putItems c (selected (plain items)) (St.init c) = .error e := h2
     rw [selected_plain, hp] at h2b; cases h2b
@@ -1005,11 +1014,12 @@ by message, the reports of `chunks` (so, by `chunks_good`, each selected report 
 the list indices `0, 1, …` by `streamed_indices`), and every message is exactly as long as its header
 and its complete reports -/
 theorem cursor_report_starts {c : Cfg} (hw : c.WF) (pw : PW) (g : List Cell) {items : List Item}
-    {cs : List ChunkOut} (h : chunks c items = .ok cs) (hpos : ∀ ch ∈ cs, ∀ p ∈ ch.pieces, 0 < p.size) :
+    {cs : List ChunkOut} (hok : IdxOk (plain items)) (h : chunks c items = .ok cs)
+    (hpos : ∀ ch ∈ cs, ∀ p ∈ ch.pieces, 0 < p.size) :
     ∃ x, cattrs c pw false g (plain items) = .ok x ∧
       (msgsOf x).map reportStarts = cs.map (·.pieces) ∧
       (msgsOf x).map List.length = cs.map fun ch => c.hdr + c.arrOpen + sumSizes ch.pieces := by
-  obtain ⟨x, h1, h2⟩ := cursor_messages hw pw g h
+  obtain ⟨x, h1, h2⟩ := cursor_messages hw pw g hok h
   refine ⟨x, h1, ?_, ?_⟩
   · rw [h2, List.map_map]
     apply List.map_congr_left
@@ -1040,6 +1050,25 @@ example : tinyCfg.WF ∧
     (cattrs tinyCfg pwAll false [] (plain [tinyList])).toOption.map (fun x => (msgsOf x).map reportStarts) =
       some [[.listStart 5 4, .listElem 5 0 10, .listElem 5 1 10], [.listElem 5 2 10, .listElem 5 3 10], []] :=
   ⟨tinyCfg_wf, by decide, by decide⟩
+
+/-- the hypothesis `IdxOk` of the cursor-level theorems is satisfiable … -/
+example : IdxOk (plain [tinyList]) := by
+  intro a ha
+  simp only [plain, List.map_cons, List.map_nil, List.mem_singleton] at ha
+  subst ha
+  show 4 ≤ idxMax
+  decide
+
+/-- … and needed: in a list of 65536 elements the read of element 65535 = `u16::MAX` succeeds and the
+following `list_index + 1` overflows (hypotheses of `arrStep_overflow` instantiated on the initial state) -/
+example : arrStep readCfg pwAll (readCfg.hdr + readCfg.arrOpen) false
+      { id := 1, empty := 4, elems := List.replicate 65536 1, probe := 8, st := 6, stE := 7 }
+      (some idxMax) 0 (CSt.init readCfg []) = .inr (.error .overflow) :=
+  arrStep_overflow pwAll _ 0 (e := 1)
+    (by show (List.replicate 65536 1)[65535]? = some 1
+        rw [List.getElem?_replicate, if_pos (by decide)])
+    (sim_init readCfg []) (inv_init readCfg readCfg_wf)
+    (by decide)
 
 /-- **the seeded change C14-a at model level: with a stale rewind position the theorem fails.**
 `arrStep … (stale := true)` keeps the rewind position across `send(ChunkingAttributes)`; when the first
@@ -1113,7 +1142,8 @@ theorem respond_eq_respondLive_nil (c : Cfg) (r : Req) : respond c r = respondLi
 once, in buffer order) is what the live specification says when the queue does not change -/
 theorem goodLive_nil_events {c : Cfg} {r : Req} {cs : List ChunkOut} (h : GoodLive c r [] cs) :
     cs.flatMap (·.events) = eventsOf r := by
-  have hev := h.events
+  have hev : LiveEvents [] r.events (cs.flatMap (·.events)) := by
+    rw [List.flatMap_def]; exact h.events.flat
   unfold eventsOf
   cases he : r.events with
   | none => rw [he] at hev; exact hev
@@ -1127,6 +1157,28 @@ theorem goodLive_nil_events {c : Cfg} {r : Req} {cs : List ChunkOut} (h : GoodLi
       rw [hb i _ (List.getElem?_eq_getElem hi), envOf_nil]
     rw [hevs, hfro]
     rfl
+
+/-- **the live specification is message-wise**: queue `[1, 2, 3]` at the first fetch, `[3]` at the second
+(1 and 2 evicted meanwhile).  The messages `[1], [2, 3]` concatenate to what ONE fetch over the first
+queue reports, but message 2 reports event 2, which was not in the queue when message 2 was filled:
+rejected (`LiveMsgsFull.msg_sound`; the flat `LiveEvents` alone would accept it) -/
+example : ¬ LiveMsgs [[⟨3, 10, true⟩]]
+    (some { buf := [⟨1, 10, true⟩, ⟨2, 10, true⟩, ⟨3, 10, true⟩], nextMax := 100 })
+    [[.data 1 10], [.data 2 10, .data 3 10]] := by
+  intro h
+  rcases h with h | ⟨_, h0⟩
+  · obtain ⟨m0, hm⟩ := h.msg_sound
+    have h1 := (hm 0 [.data 1 10] 1 10 rfl (by simp)).1
+    obtain ⟨_, x, hx, hn, _⟩ := hm 1 [.data 2 10, .data 3 10] 2 10 rfl (by simp)
+    have : m0 = 0 := by omega
+    subst this
+    have hb : envOf [⟨1, 10, true⟩, ⟨2, 10, true⟩, ⟨3, 10, true⟩] [[⟨3, 10, true⟩]] (1 - 0) = [⟨3, 10, true⟩] := rfl
+    rw [hb] at hx
+    simp only [List.mem_singleton] at hx
+    subst hx
+    cases hn
+  · have := h0 [.data 1 10] (by simp)
+    cases this
 
 /-- a queue of three buffers of 30 bytes holding three debug events of 10 bytes -/
 def liveQ : Queue := (Queue.new 30).after [.push 0 10 none, .push 0 10 none, .push 0 10 none]
@@ -1174,6 +1226,19 @@ example : Evolves (liveQ.view (fun _ => 600) (fun _ => true))
   after_evolves _ _ (Queue.after_qinv (Queue.qinv_new 30) _) _
     (by intro op hop; simp only [List.mem_cons, List.not_mem_nil, or_false, or_self] at hop; exact ⟨0, 10, none, hop⟩)
     (by decide)
+
+set_option maxRecDepth 16000 in
+/-- the hypotheses of `respondLive_lastEnds` are satisfiable (the live example above: real encoding, every
+report 600 bytes) -/
+example : readCfg.arrOpen ≤ readCfg.evOpen ∧
+    ∀ e, (liveReq.onQueue (fun _ => 600) (fun _ => true) liveQ).events = some e →
+      ∀ b ∈ e.buf :: liveBufs (fun _ => 600) (fun _ => true) liveQ liveSched, BufFits readCfg e b := by
+  refine ⟨by decide, ?_⟩
+  intro e he
+  injection he with he
+  subst he
+  unfold BufFits
+  decide
 
 set_option maxRecDepth 16000 in
 /-- **why termination needs the finite-schedule assumption**: a producer that pushes one more matching
